@@ -137,6 +137,102 @@ def infeasible_between(st, a, b):
     return False
 
 
+def linear_infeasible(st, a, b):
+    """Is this path of duration_between(a, b) infeasible?  Independent of how the code orders the two values (cmp::min/max, a match on
+    cmp, ...): every fact of the path that is linear in Dd = a.days - b.days and Dn = a.nanoseconds - b.nanoseconds -- intervals of values
+    whose exact affine form is alpha*Dd + beta*Dn + gamma, and ordering facts between two such values (the instants compared by cmp are
+    86_400e9*days + nanoseconds) -- is collected, and the system is decided exactly (Fourier-Motzkin over Dn, then integers Dd)."""
+    from fractions import Fraction as F
+    ad, an, bd, bn = a[2][0][1], a[2][1][1], b[2][0][1], b[2][1][1]
+    S = {ad, an, bd, bn}
+    if len(S) != 4:
+        return False
+
+    def form(f):
+        if f is None or f.mod or not set(f.co) <= S:
+            return None
+        if f.co.get(ad, 0) != -f.co.get(bd, 0) or f.co.get(an, 0) != -f.co.get(bn, 0):
+            return None
+        return (f.co.get(ad, 0), f.co.get(an, 0), f.c0)
+    cons = []                                      # (alpha, beta, gamma, lo, hi): lo <= alpha*Dd + beta*Dn + gamma <= hi
+    cand = []
+    for v, (l, h) in list(st.iv.items()):
+        if not isinstance(v, int):
+            continue
+        f = D.aff_of(v)
+        if f.mod or not f.co or not set(f.co) <= S:
+            continue
+        cand.append((v, f))
+        g = form(f)
+        if g is not None and (g[0] or g[1]):
+            cons.append((g[0], g[1], g[2], l, h))
+    cand = cand[:80]
+    for i, (x, fx) in enumerate(cand):
+        for (y, fy) in cand[i + 1:]:
+            g = form(D.aff_add(fx, fy, -1))
+            if g is None or not (g[0] or g[1]):
+                continue
+            r = D.rel_get(st, x, y)
+            if r == frozenset('<=>'):
+                continue
+            lo = 1 if r <= frozenset('>') else 0 if r <= frozenset('>=') else -D.INF
+            hi = -1 if r <= frozenset('<') else 0 if r <= frozenset('<=') else D.INF
+            if r == frozenset('<>'):
+                continue
+            cons.append((g[0], g[1], g[2], lo, hi))
+    (adl, adh), (bdl, bdh), (anl, anh), (bnl, bnh) = (D.get_iv(st, v) for v in (ad, bd, an, bn))
+    if D.INF in (adh, bdh, anh, bnh) or -D.INF in (adl, bdl, anl, bnl):
+        return False
+    cons.append((1, 0, 0, adl - bdh, adh - bdl))
+    cons.append((0, 1, 0, anl - bnh, anh - bnl))
+    # bounds on Dn as functions of Dd: L_i(Dd) <= Dn <= U_j(Dd); constraints without Dn bound Dd directly
+    lows, ups, dlo, dhi = [], [], F(adl - bdh), F(adh - bdl)
+    for (al, be, ga, lo, hi) in cons:
+        for bound, is_low in ((lo, True), (hi, False)):
+            if bound in (D.INF, -D.INF):
+                continue
+            # al*Dd + be*Dn + ga >= bound   (is_low)    /   <= bound (not is_low)
+            if be == 0:
+                if al == 0:
+                    if (is_low and ga < bound) or (not is_low and ga > bound):
+                        return True
+                    continue
+                t = F(bound - ga, al)
+                if (al > 0) == is_low:
+                    dlo = max(dlo, t)
+                else:
+                    dhi = min(dhi, t)
+            else:
+                # Dn >=/<= (bound - ga - al*Dd) / be
+                k, m = F(-al, be), F(bound - ga, be)           # Dn  (>= or <=)  k*Dd + m
+                if (be > 0) == is_low:
+                    lows.append((k, m))
+                else:
+                    ups.append((k, m))
+    for (k1, m1) in lows:
+        for (k2, m2) in ups:
+            # k1*Dd + m1 <= k2*Dd + m2   ->   (k1 - k2)*Dd <= m2 - m1
+            kk, mm = k1 - k2, m2 - m1
+            if kk == 0:
+                if mm < 0:
+                    return True
+            elif kk > 0:
+                dhi = min(dhi, mm / kk)
+            else:
+                dlo = max(dlo, mm / kk)
+    import math
+    p, q = math.ceil(dlo), math.floor(dhi)
+    if p > q:
+        return True
+    # integers: try the integer values of Dd at both ends and in the middle (for a fixed Dd the bounds on Dn are plain numbers)
+    for dd in sorted({p, q, (p + q) // 2, min(q, p + 1), max(p, q - 1)}):
+        lo = max([math.ceil(k * dd + m) for k, m in lows] or [-D.INF])
+        hi = min([math.floor(k * dd + m) for k, m in ups] or [D.INF])
+        if lo <= hi:
+            return False
+    return True
+
+
 def check_since(ctx, N, fn, U, floor_inst=1):
     I = N.I
     n = ok = 0
@@ -203,7 +299,7 @@ def check(ctx):
         for args, st0, outs in N.results.get(fn, []):
             a, b = deref(I, st0, args[0]), deref(I, st0, args[1])
             for st, rv in outs:
-                if ty == 'datetime::DateTime' and infeasible_between(st, a, b):
+                if ty == 'datetime::DateTime' and (infeasible_between(st, a, b) or linear_infeasible(st, a, b)):
                     continue
                 n += 1
                 if rv[0] != 's' or rv[2][0][0] != 'i' or rv[2][1][0] != 'i':
@@ -216,6 +312,11 @@ def check(ctx):
                 good = False
                 picks = [e for e in st.trace if isinstance(e, tuple) and e and e[0] == 'minmax']
                 order = picks[0][3] if picks else None       # outcome of DateTime::cmp(self, compare): instant order (C03)
+                if order is None:
+                    # no min/max: an ordering fact of the path between two values that are the two instants (e.g. a match on self.cmp(compare))
+                    rb = rel_between(st, vids_equal_to(st, ta), vids_equal_to(st, tb))
+                    if rb is not None:
+                        order = 1 if rb <= frozenset('=') else 2 if rb <= frozenset('>=') else 0 if rb <= frozenset('<=') else None
                 for sign in (1, -1):
                     if D.aff_equiv(tot, D.aff_scale(delta, sign), 0, st=st):
                         sub = D.get_iv(st, rv[2][1][1])
